@@ -468,7 +468,7 @@ def family(seed, tier):
         progs.append(g.closure(kind, rng.randint(0, 2), rng.randint(0, 2), rng.choice(["outer", "inner"]), lam=True))
         progs.append(g.recursion(kind, rng.randint(2, 4), 0))
     # 6. random rest
-    extra = 60 if tier == "quick" else 600
+    extra = 60 if tier == "quick" else 2500
     for _ in range(extra):
         kind = rng.choice(kinds)
         d = rng.randint(0, 3)
